@@ -301,8 +301,10 @@ def check(case, rec):
         bad("doc-generated-by", "%r != %r" % (doc.get("generated_by"), gby))
     if doc.get("date") != date.isoformat():
         bad("doc-date", "%r != %r" % (doc.get("date"), date.isoformat()))
-    if doc.get("id") != str(spec.get("table_id")):
-        bad("doc-id", "%r != %r" % (doc.get("id"), str(spec.get("table_id"))))
+    # (the table's own id: a history that reloads the table from JSON drops
+    # it, which the statement does not cover)
+    if doc.get("id") != str(src["table_id"]):
+        bad("doc-id", "%r != %r" % (doc.get("id"), str(src["table_id"])))
     if doc.get("matrix_type") != "sparse":
         bad("doc-matrix-type", repr(doc.get("matrix_type")))
     if doc.get("format_url") != "http://biom-format.org":
